@@ -105,8 +105,10 @@ func report(sig string, res uint16, evs []tev, q int64, what string) {
 	}
 }
 
+var styleNote string
+
 func feature(evs []tev) string {
-	f := fmt.Sprintf("%d-events", len(evs))
+	f := fmt.Sprintf("%d-events", len(evs)) + styleNote
 	rep := false
 	for i, e := range evs {
 		if i > 0 && e.gap == 0 {
@@ -122,8 +124,11 @@ func feature(evs []tev) string {
 	return f
 }
 
+// styles 0-2: see buildFile; style 3: style 0 read with the logging option on;
+// style 4: style 0 with a header that declares no track at all (the reader
+// takes the chunks as they come and stops at the end of the data).
 func judgeMap(res uint16, evs []tev) {
-	for style := 0; style < 3; style++ {
+	for style := 0; style < 5; style++ {
 		if style > 0 && len(evs) == 0 {
 			break
 		}
@@ -131,14 +136,32 @@ func judgeMap(res uint16, evs []tev) {
 	}
 }
 
+type nullLogger struct{ n int }
+
+func (l *nullLogger) Printf(format string, vals ...interface{}) { l.n++ }
+
 func judgeMapStyle(res uint16, evs []tev, style int) {
-	data, err := buildFile(res, evs, style)
+	bstyle := style
+	if style >= 3 {
+		bstyle = 0
+	}
+	data, err := buildFile(res, evs, bstyle)
 	if err != nil {
 		ctx.Guard(false, "cannot build file: %v", err)
 		return
 	}
+	styleNote = map[int]string{3: ":read-with-logging", 4: ":header-declares-no-track"}[style]
+	defer func() { styleNote = "" }()
+	var opts []smf.ReadOption
+	if style == 3 {
+		opts = append(opts, smf.Log(&nullLogger{}))
+	}
+	if style == 4 {
+		data = append([]byte(nil), data...)
+		data[10], data[11] = 0, 0
+	}
 	var s *smf.SMF
-	c := engine.Catch(func() { s, err = smf.ReadFrom(bytes.NewReader(data)) })
+	c := engine.Catch(func() { s, err = smf.ReadFrom(bytes.NewReader(data), opts...) })
 	if c.Panicked || err != nil {
 		report("tempomap:read:"+feature(evs), res, evs, -1, fmt.Sprintf("cannot read the file: %v %s", err, c.Value))
 		return
